@@ -131,6 +131,7 @@ class U:
                 ns[name] = fr
         ns.update(extra or {})
         ns["__module__"] = "extracted:" + relpath        # exceptions raised on these objects are the code's, not the model's
+        ns.setdefault("__doc__", _ast.get_docstring(node, clean=False))      # the class docstring is data some classes read (self.__doc__)
         cls = type(clsname, tuple(bases) or (object,), ns)
         for v in ns.values():
             fr = v.func if isinstance(v, functools.cached_property) else v.fget if isinstance(v, property) else \
